@@ -18,3 +18,7 @@ add("C19", "slice_transpose, slice_addElement_same/other, addElement_structure, 
 add("C16", "generate_valid, valid_iff, replace_nil/only_named/WF, equality is an equivalence that distinguishes every attribute, "
            "nested_eq_iff_children, toGym_member proved for all specs/values over a transliteration of specs.py; random spec trees and "
            "boundary values run through the real specs and the model", _note)
+
+add("C18", "the regex matcher is proved equal to the documented grammar (sound + complete, any string, abstract character classes), "
+           "round trip / normalisation, registry state machine laws; shipped ids generated from jumanji/__init__.py and checked by "
+           "decide +kernel; id strings (ASCII + Unicode) and random register/make sequences run through the real module and the model", _note)
